@@ -26,15 +26,13 @@ void h_codec(void) {
     {
         wide p = P_(), n = N_(), Rx = be256(&b[1]), Rpx = be256(&b[34]), SP = be256(&b[66]), E = be256(&b[98]), S = be256(&b[130]);
         int preR = (b[0] == 2 || b[0] == 3) && Rx < p, preRp = (b[33] == 2 || b[33] == 3) && Rpx < p;
-        int okR = 1, okSigr, okRp = 1, okSp, okS, slot_rp = want_r && preR ? 1 : 0, acc;
-        if (want_r) { okR = preR; if (preR) { __CPROVER_assert(g_xq_n >= 1 && fval(&g_xq_x0) == Rx, "C14 codec: curve verdict asked for the x of R"); okR = g_xq_v0; } }
-        okSigr = !want_sigr || modn1(Rx) != 0;
-        acc = okR && okSigr;
-        if (acc && want_rp) { okRp = preRp; if (preRp) { __CPROVER_assert(g_xq_n == slot_rp + 1 && fval(slot_rp ? &g_xq_x1 : &g_xq_x0) == Rpx, "C14 codec: curve verdict asked for the x of R'"); okRp = slot_rp ? g_xq_v1 : g_xq_v0; } }
-        acc = acc && okRp;
-        okSp = !want_sp || (SP != 0 && SP < n);
-        okS = !want_s || S < n;
-        __CPROVER_assert(ret == (acc && okSp && okS), "C14 codec: accepted exactly when R, R' are valid encodings with positive curve verdicts, x(R) mod n != 0, 0 < s' < n and DLEQ s < n");
+        /* curve verdicts identified by the x they were asked about, in either call order (the oracle is not a function: every verdict
+         * given for an x must be positive); on REJECT paths nothing is demanded about whether or in which order the oracle was consulted */
+        int m0R = g_xq_n >= 1 && fval(&g_xq_x0) == Rx, m1R = g_xq_n >= 2 && fval(&g_xq_x1) == Rx, m0Rp = g_xq_n >= 1 && fval(&g_xq_x0) == Rpx, m1Rp = g_xq_n >= 2 && fval(&g_xq_x1) == Rpx;
+        int vR = (m0R || m1R) && (!m0R || g_xq_v0) && (!m1R || g_xq_v1);
+        int vRp = (m0Rp || m1Rp) && (!m0Rp || g_xq_v0) && (!m1Rp || g_xq_v1) && (!(want_r && Rx == Rpx) || g_xq_n >= 2);
+        int okR = !want_r || (preR && vR), okSigr = !want_sigr || modn1(Rx) != 0, okRp = !want_rp || (preRp && vRp), okSp = !want_sp || (SP != 0 && SP < n), okS = !want_s || S < n;
+        __CPROVER_assert(ret == (okR && okSigr && okRp && okSp && okS), "C14 codec: accepted exactly when R, R' are valid encodings with positive curve verdicts for their x, x(R) mod n != 0, 0 < s' < n and DLEQ s < n");
         if (want_sp && (SP == 0 || SP >= n) ) __CPROVER_assert(ret == 0, "C14 codec: s' = 0 or s' >= n rejected");
         if (want_s && S >= n) __CPROVER_assert(ret == 0, "C14 codec: DLEQ response s >= n rejected");
         if (want_sigr && modn1(Rx) == 0) __CPROVER_assert(ret == 0, "C14 codec: x(R) = 0 mod n rejected");
@@ -46,14 +44,14 @@ void h_codec(void) {
             if (want_e) __CPROVER_assert(sval(&e) == modn1(E), "C14 codec: e is taken mod n");
             if (want_s) __CPROVER_assert(sval(&s) == S, "C14 codec: DLEQ s value");
             if (want_r && want_rp && want_sp && want_e && want_s) {
-                int y0_ok = modp(fval(&g_xq_y0)) != 0 && modp(fval(&g_xq_y1)) != 0;   /* no curve point has y = 0; the oracle is free to say so, then parity cannot be honoured */
+                int y0_ok = modp(fval(&g_xq_y0)) != 0 && modp(fval(&g_xq_y1)) != 0 && g_xq_n == 2;   /* no curve point has y = 0; the oracle is free to say so, then parity cannot be honoured */
                 secp256k1_ecdsa_adaptor_sig_serialize(out, &r, &rp, &sp, &e, &s);
                 if (y0_ok && E < n) __CPROVER_assert(out[g_k] == b[g_k], "C14 codec: serialize(deserialize(b)) == b on accepted strings (e < n)");
                 if (E >= n) REACH("codec accepts a string with e >= n (reduced mod n)");
                 if (y0_ok && E < n && b[0] == 3 && b[33] == 2) REACH("codec round trip");
             }
         }
-        if (ret == 0 && acc && okSp && want_s) REACH("codec rejects DLEQ s >= n");
+        if (ret == 0 && okR && okSigr && okRp && okSp && want_s) REACH("codec rejects DLEQ s >= n");
         if (ret == 0 && !want_r && want_sigr && !want_rp && want_sp && !want_e && !want_s && modn1(Rx) != 0) REACH("codec (decrypt/recover view) rejects bad s'");
         if (ret == 1 && !want_r && want_sigr && !want_rp && want_sp && !want_e && !want_s) REACH("codec (decrypt/recover view) accepts");
     }
